@@ -188,6 +188,9 @@ def r2_1(ctx, R, only_in=None):
         for rb, e in returned_exprs(ctx, b):
             if e[0] == "call" and e[3] == dbb:
                 okv = True   # the drained result is returned as it is (same index, same output)
+            if e[0] == "agg" and e[1].endswith("Poll::Ready") and e[2][0][0] == "proj" and e[2][0][2] == ("@Ready", ".0") \
+                    and e[2][0][1][0] == "call" and e[2][0][1][3] == dbb:
+                okv = True   # Ready(<the drained result's Ready payload>): same Option<(i, x)>, re-wrapped
             if rb in region and e[0] == "agg" and e[1].endswith("Poll::Ready"):
                 inner = e[2][0]
                 if inner[0] == "agg" and inner[1].endswith("Option::Some"):
@@ -682,4 +685,7 @@ def shared(ctx, R):
     c04.r4_2(ctx, R, ot)
     ctx.rule("R4.1", "see C04 R4.1 (shared): index discipline -- a gap or duplicate in the order indices parks outputs forever")
     ctx.rule("R4.2", "see C04 R4.2 (shared): outputs are released exactly when in turn")
+    c04.r4_4(ctx, R)
+    ctx.rule("R4.4", "see C04 R4.4 (shared): the parked-output heap is a min-heap on the unsigned index -- another order parks the "
+                     "next-in-turn output behind one that never matches")
     c15.r15_2b(ctx, R)
